@@ -161,6 +161,10 @@ type G[T any] struct{ V T }
 type E int
 type A = T
 
+// the empty interface under other names: an alias (identical to any) and a defined type (a different type)
+type AnyA = any
+type EI interface{}
+
 // aliases whose targets cannot be named from another package tree: a type of an internal package, an unexported type
 type Client = impl.Client
 type token struct{ v int }
@@ -199,6 +203,8 @@ LOCAL_TYPES = {
     "LI": "type LI interface{ Foo() }",
     "LE": "type LE int",
     "LA": "type LA = {FX}.T",
+    "LAnyA": "type LAnyA = any",
+    "LEI": "type LEI interface{}",
     "LG": "type LG[T any] struct{ V T }",
     "LG2": "type LG2[K comparable, V any] map[K]V",
     "LC": "type LC interface{ ~int | ~string }",
@@ -221,7 +227,7 @@ GOMOD_SPELLINGS = {
     "block": "module (\n\t%s\n)\n",
 }
 
-ALIAS_NAMES = ("A", "LA", "Client", "Token")
+ALIAS_NAMES = ("A", "LA", "Client", "Token", "AnyA", "LAnyA")
 
 PLACEMENTS = ["samepkg", "samepkg_test", "ext_test", "subpkg", "subpkg_samename"]
 
